@@ -3,7 +3,7 @@
   C01 "Missing 1").
 
       `projectEquations net = .ok (np, u)`  (the executed model of `LocalNetwork::project_equations()`)
-      + `NoAlias` (no revised observation names one point in two coefficient roles)
+      (no `NoAlias` any more, round 12: a row that names one unknown twice is covered — the coefficients add up)
       + `RankGap (toProblem np).A (m0²•Pc) (toProblem np).S τ`  ("rank numerically unambiguous" on the ORIGINAL system)
       ⇒ what `netSolve alg np` returns (envelope, cholesky, gso) IS the weighted least-squares solution
 
@@ -53,14 +53,14 @@ theorem C01_pe_regListOK (t : TrigFns K) (net : PE.Net K) (np : NetProblem K) (u
 /-- **`C01_net_envelope` with NO structural hypothesis left** (`hdim`, `RowsOK`, `hreg` all from `project_equations()`) -/
 theorem C01_net_envelope_of_project_equations_noreg (hsq : IsSqrt (SqrtFn.sq : K → K)) (t : TrigFns K)
     (net : PE.Net K) (np : NetProblem K) (u : Unknowns K)
-    (hpe : @projectEquations K (trigOfField t) net = .ok (np, u)) (hna : ∀ ob ∈ revisedObs u.net, NoAlias ob)
+    (hpe : @projectEquations K (trigOfField t) net = .ok (np, u))
     (hm0 : np.m0 ≠ 0)
     (Pc : Matrix (Fin (toProblem np).m) (Fin (toProblem np).m) K) (hPc : Sigma np * Pc = 1)
     (hU : Env.SolveUnambiguous (toProblem np))
     (a : NetAnswer K) (h : netSolve .env np = .ok a) :
     IsLSSolution (toProblem np).A (toProblem np).b ((np.m0 * np.m0) • Pc) (toProblem np).S
       (toVec (toProblem np).n a.x) (toVec (toProblem np).m a.r) a.pvv :=
-  C01_net_envelope_of_project_equations hsq t net np u hpe hna hm0 Pc hPc (C01_pe_regListOK t net np u hpe) hU a h
+  C01_net_envelope_of_project_equations hsq t net np u hpe hm0 Pc hPc (C01_pe_regListOK t net np u hpe) hU a h
 
 end reg
 
@@ -73,7 +73,7 @@ attribute [local instance 2000] scalarOfField
     premise `RankGap` on the original `(A, P = m0²·Σ⁻¹, S = min_x_)`, envelope, cholesky and gso return the weighted
     least-squares solution: `r = A x − b`, `AᵀP r = 0`, `[pvv] = rᵀP r`, `x ⟂_S ker A`. -/
 theorem C01_net_of_project_equations_gap (t : TrigFns K) (net : PE.Net K) (np : NetProblem K) (u : Unknowns K)
-    (hpe : @projectEquations K (trigOfField t) net = .ok (np, u)) (hna : ∀ ob ∈ revisedObs u.net, NoAlias ob)
+    (hpe : @projectEquations K (trigOfField t) net = .ok (np, u))
     (hm0 : np.m0 ≠ 0)
     (Pc : Matrix (Fin (toProblem np).m) (Fin (toProblem np).m) K) (hPc : Sigma np * Pc = 1)
     {τ : K} (hτ : GapThresholds τ)
@@ -81,19 +81,19 @@ theorem C01_net_of_project_equations_gap (t : TrigFns K) (net : PE.Net K) (np : 
     (alg : Alg) (halg : alg ≠ .svd) (a : NetAnswer K) (hs : netSolve alg np = .ok a) :
     IsLSSolution (toProblem np).A (toProblem np).b ((np.m0 * np.m0) • Pc) (toProblem np).S
       (toVec (toProblem np).n a.x) (toVec (toProblem np).m a.r) a.pvv :=
-  C01_net_of_gap np (C01_pe_dimsN t net np u hpe) (@C01_pe_rowsOK K (trigOfField t) net np u hpe hna) hm0 Pc hPc
+  C01_net_of_gap np (C01_pe_dimsN t net np u hpe) (@C01_pe_rowsOK K (trigOfField t) net np u hpe) hm0 Pc hPc
     (C01_pe_regListOK t net np u hpe) hτ hgap alg halg a hs
 
 /-- the trace premises of the three solvers on that system, from the same single premise
     (`C01_net_unambiguous_of_gap` without `hdim`, `RowsOK`, `hreg`) -/
 theorem C01_net_unambiguous_of_project_equations_gap (t : TrigFns K) (net : PE.Net K) (np : NetProblem K)
     (u : Unknowns K) (hpe : @projectEquations K (trigOfField t) net = .ok (np, u))
-    (hna : ∀ ob ∈ revisedObs u.net, NoAlias ob) (hm0 : np.m0 ≠ 0)
+    (hm0 : np.m0 ≠ 0)
     (Pc : Matrix (Fin (toProblem np).m) (Fin (toProblem np).m) K) (hPc : Sigma np * Pc = 1)
     {τ : K} (hτ : GapThresholds τ)
     (hgap : RankGap (toProblem np).A ((np.m0 * np.m0) • Pc) (toProblem np).S τ) :
     Env.SolveUnambiguous (toProblem np) :=
-  (C01_net_unambiguous_of_gap np (C01_pe_dimsN t net np u hpe) (@C01_pe_rowsOK K (trigOfField t) net np u hpe hna)
+  (C01_net_unambiguous_of_gap np (C01_pe_dimsN t net np u hpe) (@C01_pe_rowsOK K (trigOfField t) net np u hpe)
     hm0 Pc hPc (C01_pe_regListOK t net np u hpe) hτ hgap).1.1
 
 end gap
@@ -119,7 +119,7 @@ example : ∃ u, @projectEquations ℚ (trigOfField tQ) netW = .ok (npW, u) ∧
         (toVec (toProblem npW).n a.x) (toVec (toProblem npW).m a.r) a.pvv) := by
   obtain ⟨u, hu, hna⟩ := netW_pe
   refine ⟨u, hu, hna, by decide, npW_sigma, npW_rankgap,
-    C01_pe_dimsN tQ netW npW u hu, @C01_pe_rowsOK ℚ (trigOfField tQ) netW npW u hu hna,
+    C01_pe_dimsN tQ netW npW u hu, @C01_pe_rowsOK ℚ (trigOfField tQ) netW npW u hu,
     C01_pe_regListOK tQ netW npW u hu, ?_⟩
   intro alg halg
   obtain ⟨a, ha, hx, hr, hp⟩ := npW_solve alg halg
